@@ -28,7 +28,8 @@ if [ -z "${SEED_SKIP_CONFIRM:-}" ]; then
   rm -f "$WT/$DEST"
   $APPLY "$SD/patch.diff" >/dev/null 2>&1; git reset -q 2>/dev/null
 fi
-rsync -a --exclude .git --exclude bin --exclude evidence --exclude replays --exclude seeded /verif/ "$VS/"
+# committed state of /verif only (the working tree may be mid-edit)
+git -C /verif archive HEAD | tar -x -C "$VS" --exclude=seeded --exclude=evidence
 mkdir -p "$VS/bin" "$VS/evidence" "$VS/replays"
 cp /verif/bin/instrument "$VS/bin/" 2>/dev/null
 for P in "$@"; do
